@@ -273,6 +273,7 @@ pub fn main(args: &util::Args) {
                 vec_generics: true,
                 overlapping_impls: true,
                 result_only_generics: true,
+                finite_polyrec: true,
                 ..Default::default()
             }
         } else { crate::progen::Cfg {
